@@ -115,6 +115,15 @@ Composites ==
     E("dict", "empty", <<17, <<>>>>, FALSE),
     \* a dict whose KEYS are meta, cols, rows is still a dict
     E("dict", "gridkeys", <<17, <<<<C("cols"), <<1>>>>, <<C("meta"), Num(0, "1", "", 0)>>, <<C("rows"), Str(C("x"))>>>>>>, TRUE),
+    \* ... also when meta is a dict with a tag ver and cols a list: a marker is no version, strings are no columns
+    E("dict", "gridkeys_vermarker", <<17, <<<<C("cols"), <<16, <<>>>>>>, <<C("meta"), <<17, <<<<C("ver"), <<1>>>>>>>>>>,
+                                            <<C("rows"), <<1>>>>>>>>, FALSE),
+    E("dict", "gridkeys_colstrs", <<17, <<<<C("cols"), <<16, <<Str(C("a")), Str(C("b"))>>>>>>,
+                                          <<C("meta"), <<17, <<<<C("by"), Str(C("me"))>>, <<C("ver"), Num(0, "3", "", 0)>>>>>>>>,
+                                          <<C("rows"), Num(0, "2", "", 0)>>>>>>, FALSE),
+    \* ... or when a fourth tag stands beside them
+    E("dict", "gridkeys_extra", <<17, <<<<C("cols"), <<16, <<>>>>>>, <<C("meta"), <<17, <<>>>>>>, <<C("note"), <<1>>>>,
+                                        <<C("rows"), <<16, <<>>>>>>>>>>, FALSE),
     E("grid", "grid", InnerGrid(V30s), TRUE) }
 \* deeper look-alike, role A only: as a VALUE, meta.ver is the string "3.0" and is spelt "s:3.0"
 DeepLookalike ==
@@ -227,7 +236,14 @@ RowsDoc(form, ver, fr) ==
                                   <<<<Ld, <<0>>>>, <<Ld, N1d>>, <<<<0>>, N1d>>>>)
          [] form = "omit_all" -> g("array", <<<<>>, Row2(Lt, N1t)>>, <<<<<<0>>, <<0>>>>, <<Ld, N1d>>>>)
          [] form = "nullcell" -> g("array", <<Row2(JNull, N1t), Row2(Lt, JNull)>>, <<<<<<0>>, N1d>>, <<Ld, <<0>>>>>>)
+         \* the same liberties one level down: a grid in a cell that leaves its rows out is still a grid
+         [] form \in {"nested_missing", "nested_null", "nested_empty"} ->
+              LET mode == CASE form = "nested_missing" -> "missing" [] form = "nested_null" -> "null" [] OTHER -> "array"
+                  ng == BuildGrid(ver, fr, <<<<C("inner"), TS("m:")>>>>, ColsXYT, mode, <<>>)
+                  nd == <<18, ver, <<<<C("inner"), <<1>>>>>>, ColsXYT, <<>>>>
+              IN g("array", <<Row2(Lt, ng), Row2(ng, N1t)>>, <<<<Ld, nd>>, <<nd, N1d>>>>)
 RowsForms == {"missing", "null", "empty", "omit", "omit_all", "nullcell"}
+NestedRowsForms == {"nested_missing", "nested_null", "nested_empty"}
 
 \* two spelt values side by side: adjacent cells, or adjacent list elements
 PairDoc(pos, ver, fr, X1, D1, X2, D2) ==
@@ -252,6 +268,7 @@ SinglesOf(e, ver, tier) ==
         tier = "quick" => (x.fr = "f2" => x.pos = "cell" /\ e.rep) }
 Singles(cat, tier) == UNION {SinglesOf(e, ver, tier) : e \in cat, ver \in Vers}
 RowsChoices == { [t |-> "rows", form |-> f, ver |-> ver, fr |-> fr] : f \in RowsForms, ver \in Vers, fr \in {"f1", "f2"} }
+               \cup { [t |-> "rows", form |-> f, ver |-> V30s, fr |-> fr] : f \in NestedRowsForms, fr \in {"f1", "f2"} }
 \* representative <<value, spelling>> combinations for the pairs
 RepSp(cat, ver) == UNION { {<<e, sp>> : sp \in SpOf(e, ver)} :
                             e \in {x \in cat : x.rep /\ IsScalar(x) /\ (x.k \in Only3Kinds => ver = V30s)} }
@@ -271,7 +288,7 @@ MkCase(ch) ==
 \* is some liberty of the liberal reader used?
 IsLib(ch) ==
     CASE ch.t = "single" -> ch.sp.lib
-      [] ch.t = "rows"   -> ch.form \in {"missing", "null"}
+      [] ch.t = "rows"   -> ch.form \in {"missing", "null", "nested_missing", "nested_null"}
       [] ch.t = "pair"   -> ch.sp.lib \/ ch.sp2.lib
 
 VARIABLES cs, ph     \* the choice; ph = 1 once the laws have been evaluated on it (by TLC's workers)
@@ -301,7 +318,7 @@ Emit == PrintT(ToJson(CaseOut(cs)))
 (***************************************************************************)
 \* the clause the strict reader must name for each liberty
 StrictWhy(ch) ==
-    CASE ch.t = "rows" -> IF ch.form = "missing" THEN {"shape_top"} ELSE {"shape_rows"}
+    CASE ch.t = "rows" -> IF ch.form \in {"missing", "nested_missing"} THEN {"shape_top"} ELSE {"shape_rows"}
       [] ch.t = "pair" -> {"prefix_num", "prefix_str", "prefix_remove", "payload_time", "payload_dt"}
       [] OTHER -> CASE ch.e.k = "num" -> {"prefix_num"}
                     [] ch.e.k = "str" -> {"prefix_str"}
